@@ -577,7 +577,7 @@ def subchecks(tier, seed):
     quick = tier == "quick"
     return [
         SubCheck("all-sizes-default-parameters", body, cases=_enumerated(40 if quick else 257), exhaustive=not quick, shards=32),
-        SubCheck("rules", body, strategy=_case_strategy(), examples=2500 if quick else 40000, cases=PINNED, shards=16 if quick else 64,
+        SubCheck("rules", body, strategy=_case_strategy(), examples=2500 if quick else 120000, cases=PINNED, shards=16 if quick else 64,
                  shrink=True),
         SubCheck("inadmissible", body_invalid, strategy=_invalid_strategy(), examples=400 if quick else 3000, shards=4),
     ]
